@@ -39,6 +39,12 @@ def build_cases(tier, seed):
     reps += [(("A", "B"), ("A",)), (("A",), ("A", "B")), (("A", "B"), ("B", "C")), (("C",), ("A", "B"), ("C",))]
     for r in reps:
         cs.append(("single", (c3, r, None)))
+    # candidate names contained in one another (a str argument must not be matched as a substring)
+    sub = ("W1", "W10", "W")
+    for r in fam.weak_family(3, names=sub)[::2]:
+        cs.append(("single", (sub, r, None)))
+    for c in fam.prof_list(fam.rank_family(3, names=sub), 2, (1,), sub)[::5]:
+        cs.append(("remove", c))
     for a, b in itertools.product(reps[::2], fam.rank_family(3)[::2] + reps[1::3]):
         cs.append(("remove", (c3, ((a, 1), (b, F(1, 2))))))
     for r in W3 + (fam.weak_family(4) if tier != "quick" else fam.weak_family(4)[::3]):
@@ -100,7 +106,7 @@ def _viol(kind, what, i, msg, cfg=None):
 def ref_remove_ballot(r, sc, removed):
     r2 = None
     if r:
-        r2 = tuple(tuple(c for c in p if c not in removed) for p in r)
+        r2 = tuple(tuple(sorted(c for c in p if c not in removed)) for p in r)
         r2 = tuple(p for p in r2 if p) or None
     sc2 = None
     if sc:
